@@ -45,6 +45,15 @@ REQUIRED_THEOREMS = [
     "TapkeeVerif.C08.belowCount_sound",
     "TapkeeVerif.C08.belowCount_bounds_eigenvalues",
     "TapkeeVerif.C08.bottom_certified",
+    # flat-manifold clause (last sentence of the property)
+    "TapkeeVerif.C08.flat_local_span",                  # hflat from the local eigensolver contract (rank bridge)
+    "TapkeeVerif.C08.flat_local_orthonormal",           # horth from the contract + general position
+    "TapkeeVerif.C08.ltsa_affine_in_nullspace",         # LTSA, inclusion ⊇, data-side hypotheses only
+    "TapkeeVerif.C08.ltsa_nullspace_exact",             # LTSA, null space = affine functions (overlap / connectivity / cover)
+    "TapkeeVerif.C08.ltsa_columns_affine_on_flat",      # LTSA, every returned column is affine in the intrinsic coordinates
+    "TapkeeVerif.C08.hlle_gs_contract",                 # HLLE, the Gram-Schmidt contract as a theorem about the sweep
+    "TapkeeVerif.C08.hlle_affine_in_nullspace",         # HLLE, inclusion ⊇, data-side hypotheses only
+    "TapkeeVerif.C08.hlle_null_local_partial",          # HLLE, first half of the reverse inclusion
 ]
 
 
